@@ -13,11 +13,11 @@ import (
 
 func init() {
 	register(&Prop{
-		ID: "C06",
-		Decided: "(1) operator tables: every case of expr.compareFloats/compareStrings denotes its relation under all orderings (NaN unordered); every operator the property names (+ - * /, the six comparisons with aliases, AND/OR/NOT, LIKE, IS) is accepted by the tokenizer's tables and has a case in each evaluator switch of its kind; (2) NULL discipline: in evaluateOperatorValue no arithmetic is reachable once an operand is NULL and the result is then NULL; in compareValues a NULL operand yields false for every non-IS operator before any numeric/string comparison; (3) built-in functions cannot take the caller down: every call of Function.Execute outside its own package is dominated by a successful Validate of the same function and arguments, or runs inside a frame that converts panics to errors, or is the one reviewed exception; in every Execute body a constant index args[k] is below the lower bound of len(args) implied by the constructor's minArgs (when Validate checks the count) and by dominating len(args) tests; argument-derived type assertions are comma-ok; (4) history independence, structural part: the mutated fields of the process-wide ExprBridge and FunctionRegistry are exactly the reviewed caches (a new process-wide cache fails); (5) both evaluators and the stream resolve functions only through the registry (the registry map is touched only by registry methods).",
-		NotDecided: "arithmetic, precedence, CASE branch selection, every function's documented value, agreement of the three evaluators on values, independence from the process-wide program cache (expr-lang internals), dynamic indices and slices inside Execute bodies.",
+		ID:          "C06",
+		Decided:     "(1) operator tables: every case of expr.compareFloats/compareStrings denotes its relation under all orderings (NaN unordered); every operator the property names (+ - * /, the six comparisons with aliases, AND/OR/NOT, LIKE, IS) is accepted by the tokenizer's tables and has a case in each evaluator switch of its kind; (2) NULL discipline: in evaluateOperatorValue no arithmetic is reachable once an operand is NULL and the result is then NULL; in compareValues a NULL operand yields false for every non-IS operator before any numeric/string comparison; (3) built-in functions cannot take the caller down: every call of Function.Execute outside its own package is dominated by a successful Validate of the same function and arguments, or runs inside a frame that converts panics to errors, or is the one reviewed exception; in every Execute body a constant index args[k] is below the lower bound of len(args) implied by the constructor's minArgs (when Validate checks the count) and by dominating len(args) tests; argument-derived type assertions are comma-ok; (4) history independence, structural part: the mutated fields of the process-wide ExprBridge and FunctionRegistry are exactly the reviewed caches (a new process-wide cache fails); (5) both evaluators and the stream resolve functions only through the registry (the registry map is touched only by registry methods).",
+		NotDecided:  "arithmetic, precedence, CASE branch selection, every function's documented value, agreement of the three evaluators on values, independence from the process-wide program cache (expr-lang internals), dynamic indices and slices inside Execute bodies.",
 		Assumptions: []string{"expr-lang's vm.Run converts a panic of a called function into an error (read in the module cache, vm.go: defer/recover in Run)"},
-		Run: runC06,
+		Run:         runC06,
 	})
 }
 
@@ -209,6 +209,7 @@ func runC06(a *A) {
 	a.Rule("fnsafe/execute-guarded", 5, func() { a.ruleExecuteGuarded() })
 	a.Rule("fnsafe/arg-index", 100, func() { a.ruleArgIndex() })
 	a.Rule("ownmap/singleton-state", 3, func() { a.ruleSingletonState() })
+	a.Rule("flow/cache-stores-success-only", 4, func() { a.ruleCacheStoresSuccessOnly() })
 	a.Rule("whomay/registry", 2, func() {
 		R := a.Named("functions", "FunctionRegistry")
 		fm := a.FieldOf(R, "functions")
@@ -520,4 +521,124 @@ func (a *A) validatedAssert(T *types.Named, ex *ssa.Function, ta *ssa.TypeAssert
 		}
 	})
 	return ok
+}
+
+// ruleCacheStoresSuccessOnly: a process-wide cache entry must be a function of its key. The outcome
+// of a fallible computation (v, err := f(...)) depends on more than the key whenever f also looks at
+// the row (expr.Compile type-checks against the value types of the row in hand), so only a success
+// may be stored: every Store into a sync.Map field of a process-wide singleton whose stored value
+// contains the value result of a call that also returns an error is dominated by err == nil.
+func (a *A) ruleCacheStoresSuccessOnly() {
+	for _, fn := range a.ModFuncs {
+		allInstrs(fn, func(in ssa.Instruction) {
+			cc := callCommon(in)
+			if cc == nil {
+				return
+			}
+			callee := cc.StaticCallee()
+			if callee == nil || callee.Name() != "Store" && callee.Name() != "LoadOrStore" || callee.Signature.Recv() == nil ||
+				!isNamedType(callee.Signature.Recv().Type(), "sync", "Map") || len(cc.Args) < 3 {
+				return
+			}
+			fa, ok := cc.Args[0].(*ssa.FieldAddr)
+			if !ok {
+				return
+			}
+			fld := fieldVarOf(fa)
+			// value results of fallible calls contained in the stored value
+			type fsrc struct {
+				ex *ssa.Extract
+				at *ssa.BasicBlock // where the value is committed to the stored value: the store, or the phi edge it arrives by
+			}
+			var srcs []fsrc
+			seen := map[ssa.Value]bool{}
+			at := in.Block()
+			var walk func(v ssa.Value, d int)
+			walk = func(v ssa.Value, d int) {
+				if v == nil || seen[v] || d > 8 {
+					return
+				}
+				seen[v] = true
+				switch x := v.(type) {
+				case *ssa.MakeInterface:
+					walk(x.X, d+1)
+				case *ssa.ChangeType:
+					walk(x.X, d+1)
+				case *ssa.Phi:
+					saved := at
+					for i, e := range x.Edges {
+						at = x.Block().Preds[i]
+						walk(e, d+1)
+					}
+					at = saved
+				case *ssa.Alloc:
+					for _, r := range *x.Referrers() {
+						switch y := r.(type) {
+						case *ssa.FieldAddr:
+							for _, rr := range *y.Referrers() {
+								if st, ok := rr.(*ssa.Store); ok && st.Addr == ssa.Value(y) {
+									walk(st.Val, d+1)
+								}
+							}
+						case *ssa.Store:
+							if y.Addr == ssa.Value(x) {
+								walk(y.Val, d+1)
+							}
+						}
+					}
+				case *ssa.Extract:
+					if c, ok := x.Tuple.(*ssa.Call); ok {
+						res := c.Call.Signature().Results()
+						if res.Len() >= 2 && x.Index < res.Len()-1 && isErrorType(res.At(res.Len()-1).Type()) {
+							srcs = append(srcs, fsrc{x, at})
+						}
+					}
+				}
+			}
+			walk(cc.Args[2], 0)
+			for _, src := range srcs {
+				ex := src.ex
+				call := ex.Tuple.(*ssa.Call)
+				errIdx := call.Call.Signature().Results().Len() - 1
+				construct := fmt.Sprintf("%s#store-%s", fname(fn), fld.Name())
+				okGuard := guardedByValue(src.at, func(v ssa.Value) bool {
+					bo, ok := v.(*ssa.BinOp)
+					if !ok || bo.Op != token.EQL {
+						return false
+					}
+					return isErrOf(bo.X, call, errIdx) && isNilConst(bo.Y) || isErrOf(bo.Y, call, errIdx) && isNilConst(bo.X)
+				}, true) || guardedByValue(src.at, func(v ssa.Value) bool {
+					bo, ok := v.(*ssa.BinOp)
+					if !ok || bo.Op != token.NEQ {
+						return false
+					}
+					return isErrOf(bo.X, call, errIdx) && isNilConst(bo.Y) || isErrOf(bo.Y, call, errIdx) && isNilConst(bo.X)
+				}, false)
+				a.Check(okGuard, construct, in.Pos(),
+					"the result of "+calleeName(call)+" is cached only after its error was found nil",
+					"the result of "+calleeName(call)+" is stored in the process-wide cache "+fld.Name()+" on a path where its error may be non-nil: the failure depends on the row it was computed for, yet is replayed for every later row with the same key")
+			}
+		})
+	}
+}
+
+func isErrOf(v ssa.Value, call *ssa.Call, idx int) bool {
+	ex, ok := v.(*ssa.Extract)
+	return ok && ex.Tuple == ssa.Value(call) && ex.Index == idx
+}
+
+func isNilConst(v ssa.Value) bool {
+	k, ok := v.(*ssa.Const)
+	return ok && k.Value == nil
+}
+
+func isErrorType(t types.Type) bool {
+	return types.Identical(t, types.Universe.Lookup("error").Type())
+}
+
+func calleeName(c *ssa.Call) string {
+	if f := c.Call.StaticCallee(); f != nil {
+		return fname(f)
+	}
+	return c.Call.Value.Name()
 }
